@@ -24,6 +24,7 @@ RULE = ('raw: pruned-branch cells for all 7 masks x hash/depth vectors, alone, p
         'through Builder(type_), the Cell constructor and parsing of REFERENCE-encoded BoC bytes; mask, hash(0..3), depth(0..3) of every '
         'cell compared with the reference; level-0 hashes compared across all prune sets (pruning invariance). non-trivial = contains an '
         'exotic cell; states = distinct trees (by reference hash); transitions = cells constructed; traces = cells compared')
+RULE += " Fifth session: on every cell of every tree, the representation whose SHA-256 is the cell's hash (calculate_representation_hash / get_representation at the cell's own level) and six derived routes (copy, begin_parse().to_cell(), Slice.from_cell, slice copy, to_slice, Builder(type_).to_slice().to_cell()) must give the same cell (type, mask, per-level hashes and depths)."
 LEVEL_TEXT = ('Bounded-exhaustive: every tree shape up to the node bound, every subset/level assignment of pruned subtrees, every nesting of '
               'Merkle proofs/updates up to level 3 and all seven level masks (asserted to have occurred on pruned cells and on ordinary '
               'ancestors) are built with the real code via three routes and compared level by level with an independent reference model; '
